@@ -61,6 +61,7 @@ func init() {
 			ruleInject(c, "C04.INJECT")
 			ruleFkWiring(c, "C04.WIRING")
 			ruleEmptyRef(c, "C04.EMPTYREF")
+			ruleRefStore(c, "C04.REFSTORE")
 			ruleFkExists(c, "C04.EXISTS")
 			ruleOwnPresence(c, "C04.PRESENT")
 			ruleOldFirst(c, "C04.OLDFIRST", []string{"fkIndex"})
